@@ -189,9 +189,15 @@ def _mbx(kind, ret=None, site=None):
                 g['last_dst'] = VInt(z3.If(none, _t(g['last_dst']), val))
             return r
         if kind == 'append':
-            if ex.c.policy.prop == 'C14' and ex.choose(2) == 1:
-                # ASSUMED: a storage call that raises has had no effect of its own
-                raise PyRaise(StorageFailure)
+            if ex.c.policy.prop == 'C14':
+                # ASSUMED: a storage call that raises has had no effect of its own.  It may raise an ordinary exception
+                # or be CANCELLED (asyncio.CancelledError is a BaseException: `except Exception` does not see it)
+                k = ex.choose(3)
+                if k == 1:
+                    raise PyRaise(StorageFailure)
+                if k == 2:
+                    import asyncio
+                    raise PyRaise(asyncio.CancelledError)
             _effect(ex, frame, 'insert', base, 'append')
             ex.st.ghost['last_recent_arg'] = kw.get('recent', VBool(False))
             m = Msg.fresh('appended')
@@ -421,7 +427,9 @@ def _exit_policy(c):
     if c.policy.prop == 'C14':
         return {ResponseError: [('no_effect_before_the_refusal', lambda s: ~s.ghost('effects'))],
                 StorageFailure: [('multi_append_is_all_or_nothing', lambda s: (s.ghost('undone') == s.ghost('stored')) |
-                                  (s.ghost('stored').len == 0))]}
+                                  (s.ghost('stored').len == 0))],
+                __import__('asyncio').CancelledError: [('multi_append_is_all_or_nothing_when_cancelled', lambda s: (
+                    s.ghost('undone') == s.ghost('stored')) | (s.ghost('stored').len == 0))]}
     return {ResponseError: []}
 
 
@@ -486,7 +494,7 @@ def make(prop):
         c.policy = pol
         c.attr_models = {('SelSet', 'any_selected'): _any_selected}
         c.raises = _exit_policy(c)
-        c.raises_only = (ResponseError, StorageFailure) if prop == 'C14' else (ResponseError,)
+        c.raises_only = (ResponseError, StorageFailure, __import__('asyncio').CancelledError) if prop == 'C14' else (ResponseError,)
         out.append(c)
     return out
 
